@@ -248,10 +248,16 @@ class SoftwareManager:
         :param payload: The payload being received.
         :param session: The transport session the payload originates from.
         """
+        running = {ApplicationOperatingState.RUNNING, ServiceOperatingState.RUNNING}
         if payload.__class__.__name__ == "PortScanPayload":
-            self.software.get("nmap").receive(payload=payload, session_id=session_id)
+            nmap = self.software.get("nmap")
+            if nmap is not None and nmap.operating_state in running:
+                nmap.receive(payload=payload, session_id=session_id)
             return
         main_receiver = self.port_protocol_mapping.get((port, protocol), None)
+        if main_receiver and main_receiver.operating_state not in running:
+            # software that is not running does not handle payloads
+            main_receiver = None
         if main_receiver:
             main_receiver.receive(
                 payload=payload, session_id=session_id, from_network_interface=from_network_interface, frame=frame
@@ -259,7 +265,7 @@ class SoftwareManager:
         listening_receivers = [
             software
             for software in self.software.values()
-            if port in software.listen_on_ports and software != main_receiver
+            if port in software.listen_on_ports and software != main_receiver and software.operating_state in running
         ]
         for receiver in listening_receivers:
             receiver.receive(
